@@ -7,7 +7,10 @@ A program:
    "nodrain": [cbid, ...],                 watch callbacks that do NOT read their descriptor
    "arrivals": [[t_us, fd, n], ...],       virtual mode: when bytes arrive on descriptors
    "order": "reg|rev",                     virtual mode: report order of simultaneously ready descriptors
-   "exit_us": t, "restart": bool}          final ExitMainLoop alarm "X"; optional 2nd run() ended by alarm "X2"
+   "exit_us": t,                           final ExitMainLoop alarm "X" (preceded by the no-op sentinel alarm "S")
+   "more": [{"pre": [op, ...], "exit_us": t}, ...]}   further run() calls on the SAME loop object (loops that allow a
+                                           restart): ops issued between the runs, then alarms "S<k>", "X<k>" and run()
+   ("restart": true is the old spelling of "more": [{"pre": [], "exit_us": 5000}])
 ops (times in microseconds):
   ["alarm", cbid, us] ["rm_alarm", cbid] ["watch", cbid, fd] ["rm_watch", cbid] ["idle", cbid] ["rm_idle", cbid]
   ["write", fd, n] ["busy", us] ["raise", "exit"|"boom"]
@@ -243,6 +246,15 @@ class VirtualEnv:
 # ------------------------------------------------------------------------------ interpreter
 
 
+def more_segments(prog):
+    if prog.get("more"):
+        return prog["more"]
+    if prog.get("restart"):
+        return [{"pre": [], "exit_us": 5000}]
+    return []
+
+
+
 def execute(prog) -> list[dict]:
     """run one program against the real loop implementation; returns the recorded history"""
     from urwid.event_loop.abstract_loop import ExitMainLoop
@@ -263,9 +275,9 @@ def execute(prog) -> list[dict]:
         def body(p, cbid, n):
             if cbid in fd_of and cbid not in nodrain:
                 env.read(fd_of[cbid], 1)
-            if cbid == "X" or cbid == "X2":
+            if cbid[0] == "X":
                 raise ExitMainLoop
-            if cbid == "S":
+            if cbid[0] == "S":
                 return
             lists = cbs.get(cbid, ())
             if n < len(lists):
@@ -331,8 +343,17 @@ def execute(prog) -> list[dict]:
         probe.alarm("S", (prog["exit_us"] - TAIL_US // 2) / 1e6, body)
         probe.alarm("X", prog["exit_us"] / 1e6, body)
         probe.run()
-        if prog.get("restart") and prog["loop"] in RESTARTABLE and probe.h[-1].get("outcome") in ("return", "raise"):
-            probe.alarm("X2", 0.005, body)
+        for k, seg in enumerate(more_segments(prog), start=2):
+            if prog["loop"] not in RESTARTABLE or probe.h[-1].get("outcome") not in ("return", "raise"):
+                break
+            for op in seg.get("pre", ()):
+                try:
+                    run_ops([op], None, 0)
+                except Exception:  # noqa: BLE001
+                    pass
+            if seg["exit_us"] > TAIL_US // 2:
+                probe.alarm(f"S{k}", (seg["exit_us"] - TAIL_US // 2) / 1e6, body)
+            probe.alarm(f"X{k}", seg["exit_us"] / 1e6, body)
             probe.run()
         return probe.h
     finally:
